@@ -1,12 +1,15 @@
 CONSTANTS
-  MaxN = 30
+  MaxN = 60
   MaxH = 3
   MaxE = 2
-  MaxP = 60
+  MaxP = 150
   MaxM = 6
   AllowArm = FALSE
   Patched = TRUE
   MaxOps = 400
+  GDrop = 60
+  GOther = 70
+  GCollect = 50
 SPECIFICATION SimSpec
 INVARIANT Emit
 CHECK_DEADLOCK FALSE
